@@ -154,33 +154,29 @@ static void eb_mul_fix_plain(eb_t r, const eb_t *t, const bn_t k) {
 #if EB_FIX == BASIC || !defined(STRIP)
 
 void eb_mul_pre_basic(eb_t *t, const eb_t p) {
-	bn_t n;
-
-	bn_null(n);
-
 	RLC_TRY {
-		bn_new(n);
-
-		eb_curve_get_ord(n);
-
+		/* Fill the whole table, the scalar can be longer than the order. */
 		eb_copy(t[0], p);
-		for (int i = 1; i < bn_bits(n); i++) {
+		for (int i = 1; i < RLC_EB_TABLE_BASIC; i++) {
 			eb_dbl(t[i], t[i - 1]);
 		}
 
-		eb_norm_sim(t + 1, (const eb_t *)t + 1, bn_bits(n) - 1);
+		eb_norm_sim(t + 1, (const eb_t *)t + 1, RLC_EB_TABLE_BASIC - 1);
 	}
 	RLC_CATCH_ANY {
 		RLC_THROW(ERR_CAUGHT);
-	}
-	RLC_FINALLY {
-		bn_free(n);
 	}
 }
 
 void eb_mul_fix_basic(eb_t r, const eb_t *t, const bn_t k) {
 	if (bn_is_zero(k)) {
 		eb_set_infty(r);
+		return;
+	}
+
+	if (bn_bits(k) > RLC_EB_TABLE_BASIC) {
+		/* The table has one entry per bit of the scalar. */
+		RLC_THROW(ERR_NO_VALID);
 		return;
 	}
 
